@@ -5,6 +5,8 @@ ROOT = os.path.dirname(os.path.dirname(os.path.abspath(__file__)))
 print("| id | what was changed | needs | quick check | notes |")
 print("|----|------------------|-------|-------------|-------|")
 for d in sorted(glob.glob(os.path.join(ROOT, "seeded", "*"))):
+    if not os.path.exists(os.path.join(d, "meta.json")):
+        continue  # seeded/rewrites/ holds the harmless-rewrite study (own table)
     m = json.load(open(os.path.join(d, "meta.json")))
     def cut(s, n):
         s = " ".join((s or "").split())
